@@ -78,6 +78,13 @@ def run(ctx):
     known = {f["key"]: f for f in vlib.known_findings("C12") if f.get("status") == "open"}
     if any(c["fam"] == "ps" for c in cases) and "ps-millimetres-written-as-points" in known:
         ctx.known_finding(known["ps-millimetres-written-as-points"]["what"] + "; every PS output, e.g. a 100x80 mm canvas has BoundingBox 0 0 100 80")
+    if any(c["fam"] == "ps-gradient" for c in cases):
+        if "ps-gradients-painted-black" in known:
+            ctx.known_finding(known["ps-gradients-painted-black"]["what"] + "; %d PostScript outputs of programs with gradient paints in this run"
+                              % sum(1 for c in cases if c["fam"] == "ps-gradient"))
+        else:
+            c0 = [c for c in cases if c["fam"] == "ps-gradient"][0]
+            ctx.violation(dict(kind="property-fails-on-implementation", **describe(c0, 0, 0)), "PS output of a program with gradient paints: the gradient is not written")
     if stroke_panics:
         if "outline-fallback-stroke-panic-nan-inf" in known:
             ctx.known_finding("%s (%d of %d programs skipped), e.g. %s" % (known["outline-fallback-stroke-panic-nan-inf"]["what"],
